@@ -194,3 +194,13 @@ def run(ctx):
     funnel(ctx, A, R1)
     r15_2(ctx, A)
     r15_3(ctx)
+    # "the bytes are a function of the ACCEPTED calls" needs rejected calls to leave no trace: R06.3 / R06.5 (mode constants)
+    import rules.C06 as C06
+    chk, add, ins = C06.find_check_fn(ctx, A, 'R06.1')
+    lastf = C06.last_field(lib, A)
+    if chk is not None and lastf is not None:
+        ctx.rule('R06.5', 'set front ends reach the set entry point (no duplicate check), map front ends the map entry point', floor=12)
+        C06.r06_1_2_3(ctx, A, chk, lastf)
+        C06.r06_3_dominance(ctx, A, chk, add, ins)
+        ctx.rule('R06.5', 'set front ends reach the set entry point (no duplicate check), map front ends the map entry point', floor=12)
+        C06.r06_5(ctx, A, add, ins)
